@@ -405,6 +405,8 @@ def run_gmat(ctx, kind, n, m, idx, labelvar, level, seed, only=None, force_deep=
         ctx.count(f"cases:{est}")
         for k, v in args.items():
             ctx.flag(f"arg:{est}:{k}:{v[0]}")
+    if allow_deep and only is None:
+        allok &= _edit_stage(ctx, G)
     if allok:
         ctx.traces += 1
     ctx.flag(f"kind:{kind}")
@@ -413,6 +415,43 @@ def run_gmat(ctx, kind, n, m, idx, labelvar, level, seed, only=None, force_deep=
     if idx % 997 == 5 % n_matrices(kind, n, m):
         ctx.sample(dict(kind=kind, n=n, m=m, genotypes=G.gm.mat.tolist(), molecular=R.to_float(R.molecular(G.A)),
                         vanraden_p_from_data=(None if R.vanraden(G.a, G.c, G.pdata) is None else R.to_float(R.vanraden(G.a, G.c, G.pdata)))))
+
+
+EDIT_PLAN = [("Molecular", {}), ("VanRaden", {"p": ("none", None)}), ("Yang", {"p": ("scalar", 1)}),
+             ("GeneralizedWeighted", {"w": ("none", None), "f": ("none", None)})]
+
+
+def _edit_stage(ctx, G: GmatCase, only=None):
+    """The genotype data are edited IN PLACE (first taxon complemented, labels stay) after the estimators have already been
+    called on this object; the estimators must describe the matrix as it is now (no stale state anywhere)."""
+    new = G.gm.mat.copy()
+    if G.kind[0] == "U":
+        new[0, :] = G.c - new[0, :]            # first taxon: every genotype replaced by its complement
+    else:
+        new[:, 0, :] = 1 - new[:, 0, :]
+    if numpy.array_equal(new, G.gm.mat):
+        return True
+    G.gm.mat[...] = new
+    G.snap = G.gm.mat.copy()
+    G.A = G.alleles(G.gm.mat)
+    G.a = R.counts(G.A)
+    G.pdata = R.freq_from_data(G.a, G.c)
+    ok = True
+    for est, args in EDIT_PLAN:
+        if only is not None and (est, args) != only:
+            continue
+        case = dict(G.case(est, args), edited=True)
+
+        def one(est=est, args=args):
+            try:
+                check_estimate(ctx, G, est, args, False)
+            except Violation as v:
+                raise Violation(v.sig + ":after-in-place-edit", "after the genotype matrix was edited in place: " + v.detail)
+        ctx.evaluations += 1
+        ok &= ctx.guard(one, case=case, sig_prefix=f"Dense{est}CoancestryMatrix.from_gmat:after-in-place-edit:")
+        ctx.count("cases:after-in-place-edit")
+    ctx.flag("edit-stage")
+    return ok
 
 
 def _units(tier):
@@ -500,6 +539,7 @@ def finalize(ctx, tier, seed):
         assert f"arg:GeneralizedWeighted:f:{f}" in ctx.flags, f
     for f in ("none", "scalar", "intscalar", "array"):
         assert f"arg:GeneralizedWeighted:w:{f}" in ctx.flags, f
+    assert "edit-stage" in ctx.flags and ctx.counters.get("cases:after-in-place-edit", 0) > 100
     for f in ("deep:inverse", "deep:min_inbreeding", "deep:psd-true", "deep:permutation", "deep:subselection"):
         assert f in ctx.flags, f
     assert ctx.counters.get("excluded:VanRaden:zero-denominator", 0) > 0 and ctx.counters.get("excluded:Yang:zero-denominator", 0) > 0
@@ -510,4 +550,13 @@ def finalize(ctx, tier, seed):
 
 def replay(case, ctx):
     args = {k: (v[0], (tuple(v[1]) if isinstance(v[1], list) else v[1])) for k, v in case["args"].items()}
+    if case.get("edited"):
+        G = GmatCase(case["kind"], case["n"], case["m"], case["idx"], case["labelvar"], case["seed"])
+        for est, a, _deep_flag in plan(case["m"], "core"):          # the calls that preceded the edit
+            try:
+                check_estimate(ctx, G, est, a, False)
+            except Exception:
+                pass
+        _edit_stage(ctx, G, only=(case["est"], args))
+        return
     run_gmat(ctx, case["kind"], case["n"], case["m"], case["idx"], case["labelvar"], "full", case["seed"], only=(case["est"], args), force_deep=True)
